@@ -144,6 +144,24 @@ def run(tier):
             for f in ("formula", "rings", "components", "heavy"):
                 if rk[f] != d[f]:
                     oracle_notes.append({"smiles": s, "field": f, "rdkit": rk[f], "coq": d[f]})
+    # the batch entry points (convert, convert_generator) on the strings that are not glycans and on the meaningless ones:
+    # whatever comes back non-empty is such a molecule too
+    api_items = [it for it in items if it["kind"] in ("soup", "meaningless", "grammar") and set(it["kw"]) <= {"full"} and "\n" not in it["iupac"]]
+    api_items += [{"iupac": x, "kw": {}, "kind": "smiles-like"} for x in G.SMILES_LIKE]
+    api_out = C.run_impl_parallel("convert_api", [{"iupac": it["iupac"], "full": it["kw"].get("full", True)} for it in api_items], workers=8)
+    n_api = 0
+    for it, o in zip(api_items, api_out):
+        for ch in ("smiles", "gen"):
+            s_ = o.get(ch)
+            if not s_:
+                continue
+            n_api += 1
+            d_ = orc.describe(s_)
+            if d_ is None or not d_["valid"]:
+                why = "unparsable" if d_ is None else ",".join(k for k in ("no_markers", "elements_ok", "valences_ok") if not d_[k]) or \
+                    ("components" if d_["components"] != 1 else "empty-branch-or-duplicate-bond")
+                report.fail({"site": "result", "kind": why, "input_kind": it["kind"], "entry_point": "convert" if ch == "smiles" else "convert_generator"},
+                            {"input": it["iupac"], "full": it["kw"].get("full", True), "observed": s_, "verdict": d_})
     # ring-closure labels: every substitution the merger makes is put to the splice check (hypothesis of the embedding theorem)
     traced = [it for it in items if it["kind"] in ("tree", "deep", "wide", "multiring")]
     touts = C.run_impl_parallel("merge_trace", [{"iupac": i["iupac"], "kw": i["kw"]} for i in traced])
@@ -175,7 +193,7 @@ def run(tier):
                     {"no_failing_input": True, "what_no_longer_checks": broken, "theorems": names})
     report.assumptions = ["A-rdkit-valid: the implementation's gate uses RDKit sanitisation; the model's gate is Spec/Chem.smiles_valid; the two are compared on every assembled string of the run",
                           "for inputs whose assembly goes wrong the only protection is the exit gate (the assembly theorem for well-formed inputs is C01's)"]
-    extra = {"rule": "G-tree glycans in three notations, chemically meaningless combinations (12 shapes x all group tokens), token soup / truncations / control characters / 2000-character strings, 30-120 nested residues, 4-way branching; options full x tree_only x root_orientation x start; non-trivial = a non-empty result came back",
+    extra = {"rule": "(through Glycan.get_smiles, and for non-glycans and meaningless inputs also through convert / convert_generator) G-tree glycans in three notations, chemically meaningless combinations (12 shapes x all group tokens), token soup / truncations / control characters / 2000-character strings, 30-120 nested residues, 4-way branching; options full x tree_only x root_orientation x start; non-trivial = a non-empty result came back",
              "by_kind": kinds, "non_empty_results": nonempty, "gate_inputs_seen": gate_seen, "gate_rejections": gate_rejects,
              "o1_rdkit_agreements": o1 - len(oracle_notes), "splice_verdicts": splice,
              "print_assumptions": res.assumptions.get(f"Props/{PROP}.v", "").strip().splitlines()[-4:]}
